@@ -1077,6 +1077,15 @@ def P(F, rep, R, FL, ws):
             commits = [i for i, e in enumerate(evs) if e['ev'] == 'call' and e['n'].get('fn') == 'write' and
                        field_root(member_path(e['n'].get('obj'))) in ('m_readWriteQueue',) or
                        (e['ev'] == 'call' and e['n'].get('fn') == 'write' and any(field_root(member_path(a)) == 'm_compressedFile' for a in e['n'].get('args', [])))]
+            # consuming without delivering (skipping an unknown object) advances the get position just the same:
+            # a forward seek by a non-constant distance on the stream
+            for i, e in enumerate(evs):
+                if e['ev'] == 'call' and e['n'].get('fn') == 'seekg' and field_root(member_path(e['n'].get('obj'))) == st and e['n'].get('args'):
+                    a0 = strip_all_casts(e['n']['args'][0])
+                    if isinstance(a0, dict) and 'v' not in a0 and not (a0.get('k') == 'Un' and a0.get('op') == '-') and \
+                            not (a0.get('k') == 'Ref' and a0.get('dk') == 'local'):
+                        commits.append(i)
+            commits.sort()
             if not commits:
                 continue
             drops = [i for i, e in enumerate(evs) if e['ev'] == 'call' and e['n'].get('fn') == 'dropOldData' and field_root(member_path(e['n'].get('obj'))) == st]
@@ -1084,8 +1093,8 @@ def P(F, rep, R, FL, ws):
                 bad = evs
                 break
         rep.ob('P3', short(q), bad is None, rep.fn_site(fn),
-               '%s calls %s.dropOldData() after every commit' % (short(q), st) if bad is None else
-               '%s commits without dropping consumed containers: %s - memory grows with the file' % (short(q), fmt_events(bad)), nontrivial=True)
+               '%s calls %s.dropOldData() after every commit / skip' % (short(q), st) if bad is None else
+               '%s consumes from the stream without dropping consumed containers afterwards: %s - memory grows with the file' % (short(q), fmt_events(bad)), nontrivial=True)
     # dropOldData can actually pop
     cls = R.stages[st]
     d = [f for f in methods_of(F, cls) if f['simple'] == 'dropOldData']
